@@ -188,6 +188,13 @@ def main():
                 hplan.append(dict(fam=fam, impl=impl, kind=kind, emb='ext' if len(hplan) % 3 == 0 else 'mid', nkeys=12,
                                   ntraces=(12 if impl == 'c' else 6) if quick else 120, length=60 if quick else 120,
                                   seed=ck.seed * 1000 + 700 + len(hplan), jar=True, pure=(impl == 'py')))
+    # object values that are changed in place and stored again under their key
+    for fam in ('OO', 'IO', 'LO'):
+        for impl in ('c', 'py'):
+            for kind in ('Bucket', 'BTree'):
+                hplan.append(dict(fam=fam, impl=impl, kind=kind, emb='mid', nkeys=10, mutvals=True,
+                                  ntraces=(10 if impl == 'c' else 5) if quick else 100, length=60 if quick else 120,
+                                  seed=ck.seed * 1000 + 800 + len(hplan), jar=True, pure=(impl == 'py')))
     tracecheck.run_leaf_histories(ck, hplan)
     if not ck.notes.get('leafstore_commits') or not ck.notes.get('leafstore_aborts'):
         common.machinery_failure('no commit / abort in the transactional histories')
